@@ -81,6 +81,10 @@ CHECKS["C17"] = dict(engine="tlc+vh", level="model_checking", ref="4.8", techniq
                      text="For every case the multiset of (stream, event) pairs handed to pipelines by the real engine must equal the routing reference of the model (each routed event once per consuming stream, none elsewhere) on every path.",
                      note=DISP_NOTE)
 
+CHECKS["C24"] = dict(engine="tlc+vh", level="model_checking", ref="4.13", technique="TLA+ spec (Watermark.tla) model-checked with TLC; behaviours replayed into PerSourceWatermarkTracker and an Engine with watermark/lateness streams; recorded watermarks and drop decisions validated by TLC (WatermarkTrace.tla)",
+                     text="Monotone / EffIsMin / LateOnlyIfBelow are TLC invariants over all observe/advance sequences in the bound and are evaluated by TLC on the per-source watermarks, effective watermark and drop decisions recorded from the real tracker and engine.",
+                     note="Trusted: TLC, create_checkpoint() as the observation of the engine's tracker. Bounded: 3 sources, out-of-orderness 0/1/2 s, lateness 1 s, <= 10 generated / 100 recorded calls.")
+
 NOT_APPLICABLE = {
     "C41": "parser totality over arbitrary strings: no state/transition system to specify; a TLA+ model would only enumerate token strings (fuzzing under another name)",
     "C43": "LSP handler robustness over arbitrary text/cursor: per-call robustness, no protocol state in the property; outside model-based verification",
